@@ -124,7 +124,7 @@ Proof.
   intro H. unfold tryNextSasl. destruct tables_prereg_closed as [_ [_ [T3 _]]].
   okstep; [apply r_expect; exact H|].
   okstep.
-  - okstep; [apply ok_ret; assumption|].
+  - okstep; [apply r_reconnect; assumption|].
     okstep; [apply r_transition; [exact T3|apply InvR_with_sasl; assumption]|].
     okstep; [apply r_endCap; assumption|apply ok_ret; assumption].
   - apply ok_emit; [apply InvR_with_sasl; assumption|exact Logic.I].
